@@ -224,3 +224,223 @@ Definition obs_orders_at (l : list service) (idxs : list (list N)) (path : list 
 (* does registration succeed *)
 Definition obs_build (l : list service) : tr :=
   match build l with None => Nd [Nn 0] | Some r => Nd [Nn 1; Nn (nlen r)] end.
+
+(* =========================================================================================
+   Added after AUDIT2 (everything above is unchanged and still used):
+     tonic-build/src/lib.rs      traits Service / Method (name() vs identifier()),
+                                 format_service_name, format_method_path
+     tonic-build/src/server.rs   generate_internal: NAME = SERVICE_NAME, the literal arms of `call`
+     tonic-build/src/client.rs   generate_unary ..: PathAndQuery::from_static(path)
+     axum 0.8 routing/route.rs   RouteFuture::poll (CONNECT / top_level / HEAD)
+     tonic/src/service/router.rs From<axum::Router> for Routes (the caller's router and fallback)
+   ========================================================================================= *)
+
+(* ---- a service as the code generator sees it ---- *)
+Record tb_method := mkTM {
+  tm_name : list N;      (* Method::name(): the Rust fn of the trait / client *)
+  tm_ident : list N      (* Method::identifier(): the proto method name *)
+}.
+Record tb_service := mkTS {
+  ts_name : list N;      (* Service::name(): the Rust type name (trait Xxx, XxxServer, mod xxx_server);
+                            prost-build renders it in UpperCamelCase: HTTPEcho -> HttpEcho *)
+  ts_package : list N;   (* Service::package() *)
+  ts_ident : list N;     (* Service::identifier(): the proto service name *)
+  ts_methods : list tb_method
+}.
+Definition r_dot : N := 46.
+
+(* lib.rs fn format_service_name(service, emit_package):
+     let package = if emit_package { service.package() } else { "" };
+     format!("{}{}{}", package, if package.is_empty() { "" } else { "." }, service.identifier()) *)
+Definition tb_service_name (g : tb_service) (emit_package : bool) : list N :=
+  let package := if emit_package then ts_package g else [] in
+  package ++ (match package with [] => [] | _ => [r_dot] end) ++ ts_ident g.
+
+(* lib.rs fn format_method_path = format!("/{}/{}", format_service_name(..), method.identifier()) *)
+Definition tb_method_path (g : tb_service) (m : tb_method) (emit_package : bool) : list N :=
+  slash :: tb_service_name g emit_package ++ slash :: tm_ident m.
+
+(* What a service IS to the router: NamedService::NAME and the arms of its `call`, each a path
+   literal with the handler it runs (handlers are identified the way the harness' handlers log
+   themselves: by the proto method name). *)
+Record mounted := mkMounted { mt_name : list N; mt_arms : list (list N * list N) }.
+
+(* server.rs generate_internal: `let service_name = format_service_name(service, emit_package)`,
+   generate_named: SERVICE_NAME = service_name, NamedService::NAME = SERVICE_NAME;
+   generate_methods: for method in service.methods() { path = format_method_path(..);
+   `#path => { <T as Trait>::#name(..) }` } in declaration order.  Service::name() /
+   Method::name() only name Rust items; they occur in no string of the generated code. *)
+Definition tb_generate_server (g : tb_service) (emit_package : bool) : mounted :=
+  mkMounted (tb_service_name g emit_package)
+            (map (fun m => (tb_method_path g m emit_package, tm_ident m)) (ts_methods g)).
+
+(* client.rs generate_unary / _server_streaming / _client_streaming / _streaming:
+   `let path = format_method_path(service, method, emit_package)` ..
+   `http::uri::PathAndQuery::from_static(#path)` *)
+Definition tb_client_path (g : tb_service) (m : tb_method) (emit_package : bool) : list N :=
+  tb_method_path g m emit_package.
+
+(* the harness' stub service: NAME, and `for m in methods { if path == format!("/{}/{}", NAME, m) }` *)
+Definition mount_stub (s : service) : mounted :=
+  mkMounted (svc_name s) (map (fun m => (method_path (svc_name s) m, m)) (svc_methods s)).
+
+(* one registration: a stub, or a server generated from a descriptor with CodeGenBuilder::emit_package *)
+Inductive reg :=
+| RStub (s : service)
+| RGen (g : tb_service) (emit_package : bool).
+Definition mount (x : reg) : mounted :=
+  match x with
+  | RStub s => mount_stub s
+  | RGen g e => tb_generate_server g e
+  end.
+(* the same registration as NAME + arm identifiers (used by the proofs and by the domain guard) *)
+Definition service_of (x : reg) : service :=
+  match x with
+  | RStub s => s
+  | RGen g e => mkSvc (tb_service_name g e) (map tm_ident (ts_methods g))
+  end.
+
+(* ---- Routes over mounted services: same functions as above, on NAME and literal arms ---- *)
+Definition madd_service (r : list mounted) (t : mounted) : option (list mounted) :=
+  if v07_rejects (mt_name t) then None
+  else if existsb (fun u => bytes_eqb (mt_name u) (mt_name t)) r then None
+  else Some (r ++ [t]).
+Fixpoint madd_services (r : list mounted) (l : list mounted) : option (list mounted) :=
+  match l with
+  | [] => Some r
+  | t :: l' => match madd_service r t with
+               | None => None
+               | Some r' => madd_services r' l'
+               end
+  end.
+Definition mbuild (l : list mounted) : option (list mounted) := madd_services [] l.
+
+Fixpoint mroute (r : list mounted) (path : list N) : option mounted :=
+  match r with
+  | [] => None
+  | t :: r' => match match_route (mt_name t) path with
+               | Some _ => Some t
+               | None => mroute r' path
+               end
+  end.
+(* generated `call`: match req.uri().path() { LIT_1 => .., LIT_2 => .., _ => default } *)
+Fixpoint arm_lookup (arms : list (list N * list N)) (path : list N) : option (list N) :=
+  match arms with
+  | [] => None
+  | (lit, h) :: arms' => if bytes_eqb lit path then Some h else arm_lookup arms' path
+  end.
+Definition mserve (r : list mounted) (path : list N) : outcome :=
+  match mroute r path with
+  | None => UnimplFallback
+  | Some t => match arm_lookup (mt_arms t) path with
+              | Some h => Handler (mt_name t) h
+              | None => UnimplService (mt_name t)
+              end
+  end.
+
+(* ---- the request: Routes::add_service uses route_service (every method), the generated `call`
+   matches on the path only, the fallback is `any`: the method never takes part in routing; it
+   only shows in what axum's RouteFuture does to the response ---- *)
+Record request := mkRequest { rq_method : list N; rq_path : list N }.
+Definition m_POST : list N := [80;79;83;84].
+Definition m_HEAD : list N := [72;69;65;68].
+Definition m_CONNECT : list N := [67;79;78;78;69;67;84].
+(* "transfer-encoding" *)
+Definition hdr_transfer_encoding : list N :=
+  [116;114;97;110;115;102;101;114;45;101;110;99;111;100;105;110;103].
+Definition http_success (s : N) : bool := (200 <=? s) && (s <? 300).
+Definition with_empty_body (rp : response) : response :=
+  mkResponse (rp_status rp) (rp_headers rp) [] None.          (* Body::empty(): no data, no trailers *)
+
+(* axum routing/route.rs RouteFuture::poll:
+     if method == CONNECT && res.status().is_success() {
+         if has content-length || has transfer-encoding || size_hint().lower() != 0 { body = empty }
+     } else if top_level { set_allow_header (no Allow here); set_content_length; if HEAD { body = empty } } *)
+Definition axum_route_future (meth : list N) (top_level : bool) (r : reply) : reply :=
+  match r with
+  | Reply rp =>
+      if bytes_eqb meth m_CONNECT && http_success (rp_status rp) then
+        if hm_contains (rp_headers rp) hdr_content_length
+           || hm_contains (rp_headers rp) hdr_transfer_encoding
+           || negb (nlen (rp_body rp) =? 0)
+        then Reply (with_empty_body rp) else r
+      else if top_level then
+        match axum_set_content_length r with
+        | Reply rp' => if bytes_eqb meth m_HEAD then Reply (with_empty_body rp') else Reply rp'
+        | r' => r'
+        end
+      else r
+  | _ => r
+  end.
+
+(* what the Routes was started from *)
+Inductive base :=
+| BaseTonic        (* Routes::default(): axum::Router::new().fallback(unimplemented) *)
+| BaseAxumUser.    (* Routes::from(axum::Router::new()) / RoutesBuilder::from(axum::Router::new()):
+                      the caller's router - and ITS fallback (axum's default: 404, empty body) *)
+Definition axum_not_found : reply := Reply (mkResponse 404 [] [] None).
+
+(* axum Router::call_with_state: path_router, then fallback_router (routes "/" and
+   "/{*__private__axum_fallback}": every path that starts with '/'), then catch_all_fallback *)
+Definition via_fallback_router (path : list N) : bool :=
+  match path with c :: _ => c =? slash | [] => false end.
+
+(* what leaves Routes::call for a request with this method and path.
+   Routes::default(): `.fallback(handler)` puts a MethodRouter (any) into the fallback router and
+   a BoxedHandler into catch_all_fallback - both answer through a top-level RouteFuture.
+   axum::Router::new(): the default fallback is Endpoint::Route(NotFound) in the fallback router
+   (Route::call_owned: NOT top level, no content-length) and Fallback::Default(NotFound) as
+   catch-all (oneshot_inner_owned: top level) *)
+Definition reply_of_b (b : base) (meth path : list N) (o : outcome) : reply :=
+  match o with
+  | Handler _ _ => ReplyHandler
+  | UnimplService _ => axum_route_future meth false default_arm_reply      (* route_service: not top level *)
+  | UnimplFallback =>
+      match b with
+      | BaseTonic => axum_route_future meth true fallback_reply
+      | BaseAxumUser => axum_route_future meth (negb (via_fallback_router path)) axum_not_found
+      end
+  end.
+Definition result_obs_b (b : base) (meth path : list N) (o : outcome) : tr :=
+  Nd [outcome_obs o; reply_obs (reply_of_b b meth path o)].
+
+(* ---- observables of the added kinds ---- *)
+(* the model's domain: every NAME free of '/', '{', '}' (matchit syntax is not modelled); outside
+   of it the model makes no prediction and says so *)
+Definition regs_in_model (regs : list reg) : bool :=
+  forallb (fun x => name_in_model (svc_name (service_of x))) regs.
+Definition obs_outside : tr := Nd [Nn 96].
+
+Definition obs_gserve (b : base) (regs : list reg) (rq : request) : tr :=
+  if regs_in_model regs then
+    match mbuild (map mount regs) with
+    | None => Nd [Nn 99]                       (* add_service panicked *)
+    | Some r => result_obs_b b (rq_method rq) (rq_path rq) (mserve r (rq_path rq))
+    end
+  else obs_outside.
+Definition obs_gorders (b : base) (regs : list reg) (rq : request) : tr :=
+  Nd (map (fun p => obs_gserve b p rq) (perms regs)).
+Definition obs_gorders_at (b : base) (regs : list reg) (idxs : list (list N)) (rq : request) : tr :=
+  Nd (map (fun ix => obs_gserve b (pick regs ix) rq) idxs).
+Definition obs_gbuild (regs : list reg) : tr :=
+  if regs_in_model regs then
+    match mbuild (map mount regs) with None => Nd [Nn 0] | Some r => Nd [Nn 1; Nn (nlen r)] end
+  else obs_outside.
+(* generated client of [g], method number [j]: the path it puts on the wire, and what a server
+   with [regs] registered does with that request *)
+Definition obs_gclient (regs : list reg) (g : tb_service) (emit_package : bool) (j : N) : tr :=
+  match nth_error (ts_methods g) (N.to_nat j) with
+  | None => Nd [Nn 95]
+  | Some m => Nd [Bs (tb_client_path g m emit_package);
+                  obs_gserve BaseTonic regs (mkRequest m_POST (tb_client_path g m emit_package))]
+  end.
+
+(* ---- tonic::transport::Server / Router: add_service, add_optional_service ----
+   Server::add_optional_service(svc) = Router::new(.., svc.map(Routes::new).unwrap_or_default());
+   Router::add_optional_service(svc) = if let Some(svc) = svc { routes.add_service(svc) }:
+   an absent optional service leaves the routes untouched.  [None] = add_service,
+   [Some true] = add_optional_service(Some(svc)), [Some false] = add_optional_service(None) *)
+Definition transport_regs (l : list (reg * option bool)) : list reg :=
+  flat_map (fun p => match snd p with Some false => [] | _ => [fst p] end) l.
+Definition obs_gtransport (b : base) (l : list (reg * option bool)) (rq : request) : tr :=
+  obs_gserve b (transport_regs l) rq.
